@@ -1,4 +1,4 @@
-\* witness wanted (coarse schedule, replayable): ViewConsistent fails for the code as it is
+\* behaviours that reach rarely taken decision branches (GoalCover in MCDiscovery.tla)
 SPECIFICATION SpecB
 CONSTANTS
   Peers = {"p1", "p2"}
@@ -7,10 +7,10 @@ CONSTANTS
   Workers = {"w1"}
   Callers = {}
   Delay = 1
-  MaxRounds = 1
+  MaxRounds = 3
   MaxDrops = 1
-  MaxInbound = 0
-  MaxFail = 0
+  MaxInbound = 1
+  MaxFail = 1
   MaxCalls = 0
   MaxApi = 0
   WithGC = FALSE
@@ -19,8 +19,8 @@ CONSTANTS
   Serialized = FALSE
   DirectAPI = FALSE
   MaxLen = 200
-  Wanted = {}
+  Wanted = {"refused", "redial", "self", "dialfail", "noop", "absent", "refill", "connected"}
 CHECK_DEADLOCK FALSE
 VIEW state
 ACTION_CONSTRAINT CoarseSchedule
-INVARIANTS ViewConsistent
+INVARIANTS GoalCover
